@@ -193,6 +193,11 @@ def run(chk):
     god = repo.func(OD, "ObjectDictionary.__getitem__", "C08.R6")
     txt = src(god.node)
     chk.check("index.split('.', maxsplit=1)" in txt and "self[idx][sub]" in txt, "R6", f"{OD}:ObjectDictionary.__getitem__ | dotted form Parent.Child", god.loc(), "")
+    fgod = ff_for(chk, god, "C08.R6")
+    for n in [x for x in own_nodes(god.node) if isinstance(x, ast.Assign) and "split('.'" in src(x.value)]:
+        g = [(src(e), p) for e, p in fgod.facts_at(n)]
+        chk.check(("item is None", True) in g, "R6", f"{OD}:ObjectDictionary.__getitem__ | names and indexes first, dotted form as fallback", god.loc(n),
+                  f"the key is split at '.' under {g}, i.e. before the name table was consulted: an object whose own name contains a full stop can no longer be looked up by name")
     ao = repo.func(OD, "ObjectDictionary.add_object", "C08.R6")
     chk.check(any(src(n) == "obj.parent = self" for n in own_nodes(ao.node) if isinstance(n, ast.Assign)), "R6", f"{OD}:ObjectDictionary.add_object | parent link", ao.loc(), "")
 
@@ -200,7 +205,8 @@ def run(chk):
     cv = repo.func(E, "_convert_variable", "C08.R7")
     fcv = ff_for(chk, cv, "C08.R7")
     subs = [c for c in ast.walk(cv.node) if isinstance(c, ast.Call) and dotted(c.func) == "re.sub"]
-    chk.floor("R7", len(subs), 1, "$NODEID substitution")
+    if not subs:
+        chk.notes.append("C08.R7: no re.sub in _convert_variable; decided by specialisation only")
     for c in subs:
         p = folder.try_fold(c.args[0], sc, None)
         ok = False
@@ -216,6 +222,24 @@ def run(chk):
         chk.check(("'$NODEID' in value", True) in g and ("node_id is not None", True) in g, "R7", f"{E}:_convert_variable | offset added when relative", cv.loc(c), f"{g}")
         chk.check(isinstance(st, ast.Return) and fcv.is_form(st.value, "int(re.sub(PAT, '', value), 0) + node_id".replace("PAT", repr(p)), subst=False), "R7",
                   f"{E}:_convert_variable | value = offset + node id", cv.loc(c), src(st))
+    from .common import partial_eval
+    u32 = O.DATA_TYPES["UNSIGNED32"][0]
+    probes = [("$NODEID+0x180", 0x180), ("0x200+$NODEID", 0x200), ("$NODEID + 0x1D", 0x1D), ("0x1e+$NODEID", 0x1E), ("$NODEID+29", 29), ("0xDEAD+$NODEID", 0xDEAD),
+              ("$NODEID+0xE", 0xE), ("0x80 + $NODEID", 0x80), ("0x600", None), ("1536", None)]
+    bad = unknown = None
+    for text, off in probes:
+        r = partial_eval(folder, cv.node, cv.mod, None, {"node_id": 5, "var_type": u32, "value": text})
+        want = (off + 5) if off is not None else int(text, 0)
+        if r[0] == "unknown":
+            unknown = f"{text!r}: {r[1]}"
+            break
+        if r != ("return", want):
+            bad = f"`{text}` with node id 5 gives {r[1] if r[0] == 'return' else 'an exception ' + str(r[1])}; expected {want}"
+            break
+    if unknown:
+        chk.notes.append(f"C08.R7 _convert_variable could not be specialised ({unknown}); the pattern-level checks above stand alone")
+    else:
+        chk.check(bad is None, "R7", f"{E}:_convert_variable | $NODEID-relative values resolved (specialised for {len(probes)} spellings)", cv.loc(), bad or "")
     norm_st = [n for n in own_nodes(cv.node) if isinstance(n, ast.Assign) and src(n.targets[0]) == "value"]
     chk.check(any(src(n.value) == "value.replace(' ', '').upper()" for n in norm_st), "R7", f"{E}:_convert_variable | spaces removed, upper-cased", cv.loc(), "")
     for key, attr in (("DefaultValue", "default"), ("ParameterValue", "value")):
